@@ -34,6 +34,8 @@ type Material struct {
 	R, S, E, E2, F, O *rsa.PrivateKey
 	RootCert          *x509.Certificate // R self-signed CA
 	SignCert          *x509.Certificate // S issued by R
+	SignCertPKCS1     *x509.Certificate // S issued by R with PKCS#1 v1.5 / SHA-256
+	SignCertPSS384    *x509.Certificate // S issued by R with RSA-PSS / SHA-384
 	ForeignCert       *x509.Certificate // F self-signed CA
 	EvilSelf          *x509.Certificate // E self-signed, same subject as SignCert
 	EvilCA            *x509.Certificate // E2 self-signed CA
@@ -53,7 +55,9 @@ var (
 )
 
 func mkCert(tpl, parent *x509.Certificate, pub *rsa.PublicKey, signer *rsa.PrivateKey) (*x509.Certificate, error) {
-	tpl.SignatureAlgorithm = x509.SHA256WithRSAPSS
+	if tpl.SignatureAlgorithm == x509.UnknownSignatureAlgorithm {
+		tpl.SignatureAlgorithm = x509.SHA256WithRSAPSS
+	}
 	der, err := x509.CreateCertificate(rand.Reader, tpl, parent, pub, signer)
 	if err != nil {
 		return nil, err
@@ -103,6 +107,18 @@ func GetMaterial() (*Material, error) {
 			return
 		}
 		if m.SignCert, err = mkCert(leafTpl(), m.RootCert, &m.S.PublicKey, m.R); err != nil {
+			matErr = err
+			return
+		}
+		p1 := leafTpl()
+		p1.SignatureAlgorithm = x509.SHA256WithRSA
+		if m.SignCertPKCS1, err = mkCert(p1, m.RootCert, &m.S.PublicKey, m.R); err != nil {
+			matErr = err
+			return
+		}
+		p384 := leafTpl()
+		p384.SignatureAlgorithm = x509.SHA384WithRSAPSS
+		if m.SignCertPSS384, err = mkCert(p384, m.RootCert, &m.S.PublicKey, m.R); err != nil {
 			matErr = err
 			return
 		}
